@@ -689,3 +689,112 @@ func TestC10BinaryRace(t *testing.T) {
 		})
 	})
 }
+
+// TestC10BinaryBurst — many clients ask the real pool binary for a peer at the same moment; the one host answers
+// their whitelist calls only once they have all arrived, so that many reverse calls are outstanding on the host's
+// WebSocket at once. Every serial order hands the host to every client.
+func TestC10BinaryBurst(t *testing.T) {
+	rec := vt.For("C10")
+	rec.Rule("socket transports, burst: the `vipnode pool` binary serves one host over WebSocket and 2-40 light clients over HTTP; all clients send vipnode_peer at the same moment and the host acknowledges the resulting whitelist calls only when all have arrived (or after 1.5 s), so up to 40 reverse calls are outstanding on one connection; oracle: every one-at-a-time order hands the host to every client, so a client that is not given the host although the host acknowledged its whitelist call within 4 s of the request is a violation (one-sided timing: a late acknowledgement proves nothing); distinct by the number of clients")
+	p := startPool(t)
+	defer p.stop()
+	defer os.Remove(binPath)
+	idBase := 100
+	rapid.Check(t, func(rt *rapid.T) {
+		k := rapid.IntRange(2, 40).Draw(rt, "clients")
+		ctx, cancel := context.WithTimeout(context.Background(), 60*time.Second)
+		defer cancel()
+		host, err := dialWS(p.addr, nodeIdent(0), 1)
+		if err != nil {
+			rt.Fatalf("dial: %v", err)
+		}
+		defer host.end("close")
+		var gmu sync.Mutex
+		arrived := 0
+		var first time.Time
+		host.svc.Behave = func(method, arg string) (time.Duration, error) {
+			if method != "whitelist" {
+				return 0, nil
+			}
+			gmu.Lock()
+			arrived++
+			if first.IsZero() {
+				first = time.Now()
+			}
+			f := first
+			gmu.Unlock()
+			for {
+				gmu.Lock()
+				n := arrived
+				gmu.Unlock()
+				if n >= k || time.Since(f) > 1500*time.Millisecond {
+					return 0, nil
+				}
+				time.Sleep(5 * time.Millisecond)
+			}
+		}
+		if err := host.connectHost(ctx); err != nil {
+			rt.Fatalf("host connect: %v\n%s", err, tailLines(p.log(), 20))
+		}
+		// fresh client identities per case (their peer sets start empty)
+		ids := make([]ident, k)
+		rps := make([]*pool.RemotePool, k)
+		for i := range ids {
+			ids[i] = mkIdent(fmt.Sprintf("burst%d", idBase))
+			idBase++
+			rps[i] = pool.Remote(httpClient(p.addr), ids[i].key)
+			if _, err := rps[i].Connect(ctx, pool.ConnectRequest{VipnodeVersion: "verif", NodeInfo: ethnode.UserAgent{Kind: ethnode.Geth, Network: 1}}); err != nil {
+				rt.Fatalf("client connect: %v", err)
+			}
+		}
+		type res struct {
+			start time.Time
+			got   bool
+			err   error
+		}
+		results := make([]res, k)
+		var wg sync.WaitGroup
+		startCh := make(chan struct{})
+		for i := 0; i < k; i++ {
+			wg.Add(1)
+			go func() {
+				defer wg.Done()
+				<-startCh
+				results[i].start = time.Now()
+				resp, err := rps[i].Peer(ctx, pool.PeerRequest{Num: 1})
+				results[i].err = err
+				if resp != nil {
+					for _, pn := range resp.Peers {
+						if string(pn.ID) == host.id.nodeID {
+							results[i].got = true
+						}
+					}
+				}
+			}()
+		}
+		close(startCh)
+		wg.Wait()
+		acks := map[string]time.Time{}
+		for _, c := range host.svc.Calls() {
+			if c.Method == "whitelist" {
+				acks[c.Arg] = c.At
+			}
+		}
+		failed := 0
+		for i, r := range results {
+			if r.got {
+				continue
+			}
+			failed++
+			if at, ok := acks[ids[i].nodeID]; ok && at.Sub(r.start) < 4*time.Second {
+				rt.Fatalf("%d clients asked for a peer at once; client %d was not given the host (err=%v) although the host acknowledged its whitelist call %s after the request: the acknowledgement was lost on the pool's side of the connection (every one-at-a-time order hands the host to every client)\npool log tail:\n%s", k, i, r.err, at.Sub(r.start).Round(time.Millisecond), tailLines(p.log(), 12))
+			}
+		}
+		if strings.Contains(p.log(), "panic:") || strings.Contains(p.log(), "fatal error:") {
+			rt.Fatalf("the pool binary crashed:\n%s", tailLines(p.log(), 80))
+		}
+		rec.Case(fmt.Sprintf("burst|%d|%d", k, failed), k >= 10, []string{"binary-burst", fmt.Sprintf("binary-burst:clients>=10:%v", k >= 10)}, func() interface{} {
+			return map[string]interface{}{"kind": "pool binary, burst of peer requests", "clients": k, "not_served_for_timing": failed}
+		})
+	})
+}
